@@ -139,6 +139,11 @@ type vfE2H struct {
 	busyMu    sync.Mutex
 	busy      map[int64]bool
 	nbusy     int64
+	// audit B19: the pump's sampling branch counted at the drop site (hook proto.pump.sampleDrop, present when the
+	// tree has fixes/F50) vs. the drops the harness infers by elimination: inferred > observed = a silent loss
+	sdropSeen     int64
+	sdropInferred int64
+	sdropHook     bool
 	nOps      int
 	aborted   bool
 	quiet     bool // replay mode prints side by side
@@ -306,6 +311,10 @@ func (h *vfE2H) start(cfg vfE2Cfg) {
 		h.busy[g] = true
 		h.busyMu.Unlock()
 	})
+	atomic.StoreInt64(&h.sdropSeen, 0)
+	h.sdropInferred = 0
+	h.sdropHook = vfE2TreeHasPoint("proto.pump.sampleDrop")
+	VerifSetHook("proto.pump.sampleDrop", func(string) { atomic.AddInt64(&h.sdropSeen, 1) })
 	h.guardGate.Store(func() {})
 	h.micro = false
 	VerifSetHook("proto.pump.afterGuard", func(string) {
@@ -1128,9 +1137,28 @@ func (h *vfE2H) observe() {
 				ch.sampled[seq] = true
 				h.emit(fmt.Sprintf("sdrop %d %d", sampler, seq), "ok")
 				h.count("obs:sdrop")
+				h.sdropInferred++
+			}
+			if seen := atomic.LoadInt64(&h.sdropSeen); h.sdropHook && len(gone) > 0 {
+				if h.sdropInferred > seen {
+					h.fail("sample-drop", "channel %s: %d message(s) vanished while the sampling consumer k%d was ready (inferred as sampling drops: %v), but the pump's sampling branch (hook proto.pump.sampleDrop) dropped only %d in this episode — a silent loss would be absorbed as a sampling drop",
+						ch.name, h.sdropInferred, sampler, gone, seen)
+				} else {
+					h.count("obs:sdrop:observed-at-site")
+				}
 			}
 		}
 	}
+}
+
+// vfE2TreeHasPoint: does the tree under test contain the hook point (fixes/F50 adds proto.pump.sampleDrop)?
+func vfE2TreeHasPoint(name string) bool {
+	repo := os.Getenv("VERIF_REPO")
+	if repo == "" {
+		repo = "/repo"
+	}
+	b, err := os.ReadFile(filepath.Join(repo, "nsqd", "protocol_v2.go"))
+	return err == nil && strings.Contains(string(b), "verifPoint(\""+name+"\")")
 }
 
 // oracleDeliver: the direct checks of C02/C03 on the frames themselves.
